@@ -1637,6 +1637,17 @@ impl<'g> Cx<'g> {
                 }
                 Ok((r, Ty::List(Box::new(Ty::Tuple(vec![(**kt).clone(), (**vt).clone()])), ListKind::Iter)))
             }
+            // `btree.range(a..b)` with a `Range<u64>` value: the bindings with `a ≤ k < b` in key order; panics when `a > b`
+            (Ty::Map(kt, vt, false), "range", 1) => {
+                let (rg, rt) = self.expr(args[0], Some(&Ty::Named("Range".into())), stmts)?;
+                if !matches!(&rt, Ty::Named(n) if n == "Range") {
+                    return self.bail(args[0].span(), "`BTreeMap::range` is only supported with a `Range<u64>` value");
+                }
+                let v = self.fresh();
+                let site = self.site(whole);
+                stmts.push(Stmt::Bind(v.clone(), Doc::atom(format!("RustSem.Map.range {} {} {}", r, rg, site))));
+                Ok((v, Ty::List(Box::new(Ty::Tuple(vec![(**kt).clone(), (**vt).clone()])), ListKind::Iter)))
+            }
             (Ty::Opt(t), "expect", 1) => {
                 if !matches!(args[0], syn::Expr::Lit(_)) {
                     return self.bail(whole.span(), "`expect` needs a literal message");
